@@ -128,6 +128,17 @@ func runC06(c *core.Case) {
 		}
 		return true
 	}
+	// forks, every other round: B follows A from before the database's first
+	// transaction, so B's log starts with the file 1-1 (written by A) instead of
+	// a snapshot; when A comes back as B's replica off the history it must still
+	// be given a snapshot, not its own old files
+	earlyJoin := strings.HasPrefix(rel, "fork") && (c.Index/len(c06Relations))%2 == 1
+	if earlyJoin {
+		if err := cl.Start(1); err != nil || !cl.WaitConnected(1, 15*time.Second) {
+			c.Inconclusive("B did not connect before the first transaction")
+			return
+		}
+	}
 	wA := newW(A, "wa0")
 	if wA == nil {
 		return
@@ -287,7 +298,9 @@ func runC06(c *core.Case) {
 		}
 	default:
 		// forks: A is isolated with unreplicated writes, B takes over at the branch point
-		if err := cl.Start(1); err != nil {
+		if earlyJoin {
+			c.Count("fork_replica_holds_first_file", 1)
+		} else if err := cl.Start(1); err != nil {
 			c.Inconclusive(err.Error())
 			return
 		}
